@@ -465,7 +465,21 @@ func (x *Exec) extendPath(base *Pointer, t types.Type, path []int, st *State, n 
 	p := base
 	for k, i := range path {
 		if p.Idx != nil {
-			panic(engErr("field of array element not supported at %s", x.pos(n)))
+			if len(p.Path) != 0 {
+				panic(engErr("field of array element inside a struct not supported at %s", x.pos(n)))
+			}
+			if _, isPtr := derefType(t); isPtr {
+				panic(engErr("embedded pointer in array element not supported at %s", x.pos(n)))
+			}
+			fs, key := x.fieldsOf(t)
+			np := &Pointer{Base: p.Base, Idx: p.Idx, ArrT: p.ArrT, OwnerKey: p.OwnerKey}
+			if len(p.EPath) == 0 {
+				np.OwnerKey = key
+			}
+			np.EPath = append(append([]string{}, p.EPath...), fs[i].Name)
+			p = np
+			t = fs[i].T
+			continue
 		}
 		if et, isPtr := derefType(t); isPtr {
 			// embedded pointer: load it
